@@ -401,17 +401,25 @@ def trace_of(path: Path, limit=40):
 
 
 def unresolved_guard(ctx, results):
-    """A finding on a path (or about a handler) that goes through code the analysis could not resolve is not a verdict:
-    the reason, or None."""
-    for r in results:
-        for f in r.findings:
-            if f.detail.get("unresolved"):
-                return "%s %s: %s (the rule cannot tell what this path does)" % (f.rule, f.construct, f.detail["unresolved"])
-    for r in results:
-        for f in r.findings:
-            for q, why in ctx.unresolved.items():
-                if f.construct.startswith(q):
-                    return "%s %s: %s (the rule cannot tell what the handler does)" % (f.rule, f.construct, why)
+    """A finding on a path (or about a handler) that goes through code the analysis could not resolve is not a verdict.  When every
+    finding of the run is of that kind the run cannot decide: the reason is returned (exit 2).  When other findings stand on fully
+    resolved paths they are verdicts: the undecidable ones are set aside (with a note on their rule) and None is returned."""
+    def why(f):
+        if f.detail.get("unresolved"):
+            return "%s %s: %s (the rule cannot tell what this path does)" % (f.rule, f.construct, f.detail["unresolved"])
+        for q, reason in ctx.unresolved.items():
+            if f.construct.startswith(q):
+                return "%s %s: %s (the rule cannot tell what the handler does)" % (f.rule, f.construct, reason)
+        return None
+    tainted = [(r, f, why(f)) for r in results for f in r.findings]
+    bad = [(r, f, w) for r, f, w in tainted if w]
+    if not bad:
+        return None
+    if len(bad) == len(tainted):
+        return bad[0][2]
+    for r, f, w in bad:
+        r.findings.remove(f)
+        r.notes.append("set aside (not a verdict): %s" % w)
     return None
 
 
